@@ -82,27 +82,14 @@ def specReplaceP (old new : Nat) (f : Forest) : Forest :=
     (put.mergeLeftAt from_ nb).mergeNew3At q new
   | _, _ => f
 
-/-- **Replace**, pair reading, as xot does it: the same, except that the last merge is stated for
-    the two former neighbours of `old` BY IDENTITY: they are merged if they stand next to each other
-    at the end.  This differs from `specReplaceP` only in the corner `selfMergeReplace`, where the
-    left neighbour of `old` has lost its identity (it was merged into the text node before `new`
-    when `new` left) and the node that took in `new` is therefore not looked at again. -/
-def specReplaceK (old new : Nat) (f : Forest) : Forest :=
-  if adjacentTo f old new then specRemoveP old f else
-  match f.get? new, f.parent? old with
-  | some t, some q =>
-    let from_ := f.parent? new
-    let nb := f.nbOf new
-    let cut := f.editAt from_ (dropTop new)
-    let put := cut.editAt (some q) (replaceTop old (fun _ => [t]))
-    ((put.mergeLeftAt from_ nb).mergeNewAt q new).mergeLeftAt (some q) (f.nbOf old)
-  | _, _ => f
-
-/-- The corner in which xot's `replace` leaves two text nodes that have become adjacent unmerged
-    (finding `C05:replace-selfmerge-leaves-adjacent-text`; possible only in a forest that already
-    holds adjacent text nodes): the children `… x new p old z …` with `x`, `new`, `p`, `z` text nodes.
-    When `new` leaves, `x` and `p` are merged (`p` disappears); `new`, put in the place of `old`,
-    is merged into `x`; `x` now stands next to `z` — and xot, which remembered `p`, does not look. -/
+/-- The corner in which xot's `replace` used to leave two text nodes that had become adjacent
+    unmerged (finding `C05:replace-selfmerge-leaves-adjacent-text`, fixed by xot 609b613; possible
+    only in a forest that already holds adjacent text nodes): the children `… x new p old z …` with
+    `x`, `new`, `p`, `z` text nodes.  When `new` leaves, `x` and `p` are merged (`p` disappears);
+    `new`, put in the place of `old`, is merged into `x`; `x` now stands next to `z` and is merged
+    with it (`mergeNew3`) — xot, which remembered `p` only, did not look.  Kept as the name of the
+    geometry: the closed example in `Props/C05.lean` and the statistics of the `fspec` suite
+    (`forest specpc`) show that it is exercised. -/
 def selfMergeReplace (f : Forest) (old new : Nat) : Bool :=
   f.consolidation &&
   match f.ctx? new with
